@@ -23,6 +23,16 @@
 // Replace carrying Before/After) is held to what the statement still fixes: some handler
 // of the name fires, none twice, the handler of a later plain Replace fires, and after a
 // Remove none of them fires - whichever way the second entry came about.
+// "The pipeline runs every callback exactly once" is demanded of every run of the pipeline, not
+// only of a healthy statement: after the healthy execution the same handle executes the pipeline
+// again, once per entry (see entries): a second time; with an error attached to the statement
+// before the first callback runs (AddError in the chain, a failing scope, a destination that
+// Statement.Parse rejects, a nil pointer, a transaction handle whose begin failed); with the
+// driver failing a call half-way; through a DryRun session and a transaction handle. Each of
+// these executions is held to the same model (mode A sees only the stubs of a statement that
+// failed before the pipeline: the pristine built-ins are no-ops then). Finally (mode B) further
+// registration calls are made on the registry that has been executed - a new callback, a Replace,
+// a Remove - and the pipeline is executed once more: the whole is an ordinary sequence.
 // A sequence that ends the process (unbounded recursion in the sorter) is attributed by
 // the core runner to the case (signature "fatal"); the literal sequence is left at the
 // head of the child's output file, so it shows up in the violation detail.
@@ -49,6 +59,14 @@
 //	contradiction-accepted:star   satisfiable without the "*" constraints, not with them
 //	builtin-order                 built-ins fired in another relative order
 //	replace-position              a Replace'd callback changed sides relative to another one
+//	<class>@repeat                a problem of the second execution on the same handle that the
+//	                              first (healthy) execution does not have
+//	<class>@failed-statement      same, execution of a statement that carried an error before the
+//	                              first callback ran
+//	<class>@driver-fault          same, execution during which the driver failed a call
+//	<class>@session               same, execution through a DryRun session / a transaction handle
+//	(problems of the execution that follows the late registration calls carry the plain signatures:
+//	the sequence including those calls is an ordinary sequence)
 package c17
 
 import (
@@ -2055,6 +2073,7 @@ var Engine = &core.Engine{
 	Rule: "one case = one registration sequence on one of the six pipelines (Create, Query, Update, Delete, Row, Raw), applied to a fresh gorm handle and followed by a real execution of the pipeline against SQLite, twice: with the built-ins wrapped by recording functions (B) and on the pristine registry with the built-ins seen through driver events and model hooks (A). " +
 		"Calls: Register, Before(t).Register, After(t).Register, Before(t).After(t').Register (both chain orders), Replace, Remove; registered names: canonical fresh names, names removed earlier, and user names that exist at that moment (second entry under one name; in the enumeration such a call carries at most one request); targets t: every built-in of the pipeline, every user name introduced so far, the next name to be introduced (forward reference / unknown), '*'; Replace/Remove names: built-ins, user names, an unknown name. " +
 		"Enumerated completely: all sequences of length 0..2 on every pipeline (quick and thorough); thorough adds all sequences of length 3 with the built-in alphabet reduced to {first, main, last} built-in on Create/Update/Delete (full on Query/Row/Raw). Also enumerated on every pipeline: the 150 'move' sequences of length 4 (register u1 and u2 with plain/Before/After constraints, remove one, register it again with other constraints) and the 1 440 'second entry' sequences of length 3..6 (a name x that exists - a user callback registered plain / Before / After a built-in / Before or After '*', or the main built-in - gets a second entry through Register or through Before/After(..).Replace, with a neighbour registered plain / Before(x) / After(x); then nothing | Remove(x) | Remove, Register again (plain / After(neighbour)) | Replace(x) | Replace, Remove | Before(neighbour).Remove(x) | third Register, Remove). Then random sequences of length 3..8 over 5 user names (forward and removed names as targets, unknown name, '*', remove-and-register-again moves, second entries under existing user and built-in names by Register or by a Replace carrying a request, Remove calls carrying a request): 5 000 quick / 300 000 thorough. " +
+		"Entry into the pipeline: after the healthy execution (Create with belongs-to and has-many / Preload+Find / Model.Updates / Select.Delete / Row or Rows / Exec) EVERY case executes the pipeline again on the same handle, once per entry, and each execution is held to the same model: (repeat) the same operation a second time; (failed-statement: the statement carries an error before the first callback runs) tx.AddError on a session handle, a Scope that adds an error, a *int as model/destination (Statement.Parse fails; not for Exec), a nil *Main (ErrInvalidValue), a transaction handle from a Begin that the driver failed [B]; (driver-fault) [B] a healthy statement with the driver failing the (1 + case mod 3)-th call it receives (begin / statement / commit, also those of nested association writes); (session) [B] a DryRun session, a handle from db.Begin() rolled back afterwards. [B] = only with the wrapped built-ins; the others also on the pristine registry, where a failed statement shows the stubs only. A problem that the healthy execution already has is not reported again; a new one gets the signature <class>@<entry group>. Then, in mode B, 1..3 late registration calls are made on the executed registry (Register of a new name u9; Replace of the lowest live user callback; Remove of the highest other live user callback) and the pipeline is executed once more, checked against the model of the sequence including those calls (plain signatures). " +
 		"Ordering violations are classified by whether an order satisfying everything requested exists (side:*) or not (contradiction-accepted:*: the statement then demands an error return). distinct = (pipeline, literal sequence); non-trivial = no call returned an error, the pipeline ran, and at least one Before/After constraint with a running target, one removal, one replacement or one name with several entries was checked against the firing order",
 	Assumptions: []string{
 		"a second entry under a name that exists at that moment (Register of an existing user or built-in name; Replace carrying Before/After, which gorm stores as an entry of its own) IS generated, but the statement does not say which of the handlers then runs nor where: demanded is only that some handler of the name fires, none of them twice, that the handler of a later plain Replace fires, and that after Remove(name) none of them fires (and a later Register of the name starts afresh); Before/After requests of and towards such a name, its Replace position and the built-in order relative to it are not checked",
@@ -2063,6 +2082,9 @@ var Engine = &core.Engine{
 		"'*' is read weakly: a callback registered Before(\"*\") (After(\"*\")) must fire before (after) every built-in and every callback registered without any Before/After; nothing is demanded relative to callbacks that carry constraints of their own",
 		"Replace of a name that does not exist at that moment is generated, but the resulting callback is only required to fire at most once, and constraints naming it are not checked (the statement defines Replace by the replaced callback's position)",
 		"the sequence stops at the first call that returns an error (accepted outcome); the pipeline is then not executed",
+		"the statement's 'the pipeline runs every ... callback exactly once' is read as holding for every call of processor.Execute whatever the state of the statement: a statement that reaches the callbacks with db.Error already set still runs every registered callback once (the built-ins guard on db.Error themselves). Only finishers that always reach Execute are used (Create, Find, Updates, Delete, Rows, Exec); Row() is not used on a failed statement or in DryRun (it returns an empty *sql.Row there). Which error such a statement ends with is not checked",
+		"an execution of the pipeline does not change the registry, so registration calls made after an execution are held to the model of the whole sequence; a late call that returns an error is an accepted outcome (the last execution is then skipped). Registration through a derived session or transaction handle, Match, and executions concurrent with registration are not generated",
+		"entries marked [B] in the Rule are run with the wrapped built-ins only: on the pristine registry the effects of the built-ins under a driver fault, in DryRun or inside an outer transaction are not the ones mode A is keyed to",
 		"position of a Replace'd callback = same side of every other callback as in a reference run of the sequence without its Replace calls (skipped when the reference run returns an error)",
 		"mode A: gorm:setup_reflect_value has no visible effect and is only covered by mode B; when the sequence replaces or removes a built-in, the effects of the other built-ins are required at most once (their visibility may depend on the missing one)",
 		"a sequence whose execution ends the process is a violation with signature 'fatal' (neither an error return nor a working pipeline): sequences whose constraints among existing user callbacks form a cycle are first executed in a process of their own (probe) so that the batch survives; any other process-fatal case is attributed by the runner's per-case log",
